@@ -36,6 +36,7 @@ func (c08Check) Describe() CheckInfo {
 }
 
 type c08Args struct {
+	Sched  bool
 	Policy string
 	K      int // limit = usage after K reference keys
 	Shard  int
@@ -51,6 +52,11 @@ func (c08Check) Units(tier string, seed int64) []Unit {
 	shards := 4
 	if tier == "thorough" {
 		depth, shards = 4, 12
+	}
+	// scheduler facet: write admission under noeviction with usage one key below the limit, two concurrent writers
+	{
+		b, _ := json.Marshal(c08Args{Sched: true})
+		us = append(us, Unit{Name: "sched-noeviction-admission", Args: b})
 	}
 	for _, p := range c08Policies {
 		for _, k := range []int{2, 3} {
@@ -137,6 +143,23 @@ func (c08Check) Run(u Unit, w *Worker) UnitResult {
 	var a c08Args
 	json.Unmarshal(u.Args, &a)
 	res := UnitResult{Stats: map[string]int64{}}
+	if a.Sched {
+		bound := 2
+		if u.Tier == "thorough" {
+			bound = 3
+		}
+		for _, sc := range []*SchedScenario{
+			{Name: "noeviction admission: SET k2 v || SET k3 v at one key below the limit", Cfg: InstCfg{Policy: "noeviction", MaxMemory: c08Limit(2)},
+				Setup: []Action{cmd("SET", "k1", "v")}, Threads: [][]Action{{cmd("SET", "k2", "v")}, {cmd("SET", "k3", "v")}}, Bound: bound, MaxExec: 60000, TrackMem: true},
+			{Name: "noeviction admission: SET k2 v || MSET k3 v k4 v at one key below the limit", Cfg: InstCfg{Policy: "noeviction", MaxMemory: c08Limit(2)},
+				Setup: []Action{cmd("SET", "k1", "v")}, Threads: [][]Action{{cmd("SET", "k2", "v")}, {cmd("MSET", "k3", "v", "k4", "v")}}, Bound: bound, MaxExec: 60000, TrackMem: true},
+		} {
+			if w.Case(sc.Name) {
+				judgeScenario("C08", sc, &res)
+			}
+		}
+		return res
+	}
 	alpha := c08Alphabet()
 	L := c08Limit(a.K)
 	cfg := InstCfg{Policy: a.Policy, MaxMemory: L, EvictionIntvMs: 1000 * 3600 * 24 * 365}
